@@ -418,8 +418,8 @@ func litestream.WriteTXIDFile(outputPath, txid) (err)
   ensures [C11.content] err == nil ==> path_synced[txf_dst]
 
 func litestream.(*DB).checkDatabaseBehindReplica(db, ctx) (err)
-  requires db != nil && db.Replica != nil && !pub_renamed
-  modifies $heap, $alloc, file_written, path_synced, path_handle, file_closed, pub_dst, pub_renamed, it_idx
+  requires db != nil && db.Replica != nil && !pub_renamed && pos_verifyErr == nil
+  modifies $heap, $alloc, file_written, path_synced, path_handle, file_closed, pub_dst, pub_renamed, it_idx, pos_verifyErr
   at os.Create#all assert [C03.tmp-only] hasSuffix($arg0, ".tmp") && $arg0 == tmpPath
   at os.Rename#all assert [C03.publish-from-tmp] $arg0 == tmpPath && $arg1 == localPath && tmpPath == concat(localPath, ".tmp") && !pub_renamed
   at os.Rename#all assert [C11.flush] tmpFile != nil && path_handle[$arg0] == tmpFile && path_synced[$arg0] && file_closed[tmpFile]
@@ -559,8 +559,8 @@ func litestream.(*Replica).calcPos(r, ctx) (pos, err)
   ensures [C05.calcpos] err == nil ==> pos.TXID < 9223372036854775807
 
 func litestream.(*Replica).syncOnce(r, ctx, maxSyncLTXFiles) (result, err)
-  requires r != nil && r.db != nil && !c05_uploaded && r.pos.TXID < 9223372036854775807
-  modifies $alloc, it_idx, l0_has, file_closed, c05_writeErr, c05_upErr, c05_dpos, c05_uploaded, c05_lockErr, r.pos, all(litestream.DB)
+  requires r != nil && r.db != nil && !c05_uploaded && r.pos.TXID < 9223372036854775807 && pos_verifyErr == nil
+  modifies $alloc, it_idx, l0_has, file_closed, c05_writeErr, c05_upErr, c05_dpos, c05_uploaded, c05_lockErr, r.pos, all(litestream.DB), pos_verifyErr, all(ltx.Decoder), all(ltx.Header), all(ltx.Trailer), all(litestream.LTXError)
   at litestream.(*Replica).lockSync#1 set c05_lockErr = $result0
   at litestream.(*DB).Pos#1 set c05_dpos = $result0.TXID
   at litestream.(*Replica).uploadLTXFile#all assert [C05.order] $arg1 == 0 && $arg2 == r.pos.TXID + 1 && $arg3 == $arg2 && $arg2 <= c05_dpos
@@ -660,4 +660,18 @@ func litestream.(*DB).lastPageMatch(db, ctx, dec, prevWALOffset, frameSize) (mat
 func litestream.(*DB).detectFullCheckpoint(db, ctx, knownSalts) (detected, err)
   modifies $heap, $alloc, file_closed
   ensures [C04.detect] err == nil ==> (detected <==> len(m) >= 1)
+
+// C03: the local position is derived from the highest local level-0 file and verified by checksum.
+ghost pos_verifyErr Int
+func litestream.(*DB).Pos(db) (pos, err)
+  requires db != nil && pos_verifyErr == nil
+  modifies $alloc, db.pos, file_closed, pos_verifyErr, all(ltx.Decoder), all(ltx.Header), all(ltx.Trailer), all(litestream.LTXError)
+  assumes db.pos.value != nil ==> db.pos.value.TXID < 9223372036854775807     // cached positions come from file headers
+  at ltx.(*Decoder).Verify#1 set pos_verifyErr = $result0
+  ensures [C03.pos-verified] old(db.pos.value) == nil && pos_verifyErr != nil ==> err != nil
+  ensures pos.TXID < 9223372036854775807
+
+func litestream.NewLTXError(op, path, level, minTXID, maxTXID, err) (e)
+  modifies $alloc
+  ensures e != nil && fresh(e)
 */
